@@ -94,9 +94,32 @@ def run():
         r"if \(cancelled\) return; cancelled = true; spawnedProcesses\.close\(\); readyJobsCondition\.notify_(?P<n>one|all)\(\); \} "
         r"spawnedProcesses\.signalAll\((?P<sig>SIG[A-Z]+)\);", can), "cancelAllJobs")
     cancel_notify, cancel_sig = m.group("n"), m.group("sig")
+    need(re.search(r"spawnedProcesses\.signalAll\(SIG[A-Z]+\); \{ std::lock_guard<std::mutex> guard\(killAfterTimeoutThreadMutex\); "
+                   r"killAfterTimeoutThread = llvm::make_unique<std::thread>\( ?&LaneBasedExecutionQueue::killAfterTimeout, this\); \}$", can),
+         "cancelAllJobs: starts the escalation thread after the interrupt round")
+    # ---- killAfterTimeout (the escalation thread) and the destructor's hand-over ----------
     kill = norm(function_body(src, r"void\s+killAfterTimeout\s*\(\s*\)"))
-    m = need(re.search(r"#else spawnedProcesses\.signalAll\((SIG[A-Z]+)\); #endif", kill), "killAfterTimeout")
-    escalate_sig = m.group(1)
+    k_head = (r"std::unique_lock<std::mutex> lock\(queueCompleteMutex\); if \(!queueComplete\) \{ "
+              r"if \(getenv\(\"LLBUILD_TEST\"\) != nullptr\) \{ queueCompleteCondition\.wait_for\(lock, std::chrono::milliseconds\((?P<t>\d+)\)\); \} "
+              r"else \{ queueCompleteCondition\.wait_for\(lock, std::chrono::seconds\((?P<s>\d+)\)\); \} ")
+    k_sig = r"#if _WIN32 spawnedProcesses\.signalAll\(SIGTERM\); #else spawnedProcesses\.signalAll\((?P<sig>SIG[A-Z]+)\); #endif"
+    m = re.match(k_head + k_sig + r" \}$", kill)
+    escalates_when_complete = False          # the kill round sits inside `if (!queueComplete)`
+    if not m:
+        m = re.match(k_head + r"\} " + k_sig + r"$", kill)
+        escalates_when_complete = True       # F53: the kill round follows the `if`
+    need(m, "killAfterTimeout: lock / if (!queueComplete) { unconditional wait_for } / signalAll")
+    escalate_sig = m.group("sig")
+    esc_test_ms, esc_ms = int(m.group("t")), 1000 * int(m.group("s"))
+    m = need(re.search(r"for \(unsigned i = 0; i != numLanes; \+\+i\) \{ lanes\[i\]->join\(\); \} "
+                       r"\{ std::lock_guard<std::mutex> guard\(killAfterTimeoutThreadMutex\); if \(killAfterTimeoutThread\) \{ "
+                       r"\{ std::unique_lock<std::mutex> lock\(queueCompleteMutex\); queueComplete = true; queueCompleteCondition\.notify_all\(\); \} "
+                       r"killAfterTimeoutThread->join\(\); \} \}"
+                       r"(?P<bg> while \(backgroundTaskCount\.load\(\) != 0\) std::this_thread::sleep_for\(std::chrono::milliseconds\(1\)\);)?$", dtor),
+             "~LaneBasedExecutionQueue: join lanes, then queueComplete = true + notify_all, then join the escalation thread")
+    dtor_waits_background = m.group("bg") is not None     # F54
+    if len(re.findall(r"\bqueueComplete\b", src)) != 3:      # declaration, the test in killAfterTimeout, the store in the destructor
+        raise ExtractError("queueComplete is read or written somewhere else")
     # ---- schedulers ----------------------------------------------------------------------
     fifo = norm(src[src.index("class FifoScheduler"):src.index("class LaneBasedExecutionQueue")])
     need(re.search(r"void addJob\(QueueJob job\) override \{ jobs\.push_back\(job\); \}", fifo), "FifoScheduler::addJob")
@@ -116,6 +139,10 @@ def run():
     need(re.search(r"\{ std::unique_lock<std::mutex> lock\(readyJobsMutex\); if \(cancelled\) \{ "
                    r"if \(completionFn\.hasValue\(\)\) completionFn\.getValue\(\)\(ProcessResult::makeCancelled\(\)\); return; \} \}", ep),
          "executeProcess: cancelled-before-spawn path")
+    need(re.search(r"ProcessReleaseFn releaseFn = \[this\]\(std::function<void\(\)>&& processWait\) \{ auto previousTaskCount = backgroundTaskCount\.fetch_add\(1\); "
+                   r"if \(previousTaskCount < backgroundTaskMax\) \{ std::thread\(\[this, processWait=std::move\(processWait\)\]\(\) mutable \{ processWait\(\); backgroundTaskCount--; \}\)\.detach\(\); \} "
+                   r"else \{ backgroundTaskCount--; processWait\(\); \} \};", ep),
+         "executeProcess: a released lane waits for the process on a detached thread (or inline when over the limit)")
     order = []
     for mm in re.finditer(r"posixEnv\.setIfMissing\(([^,]*),", ep):
         k = norm(mm.group(1))
@@ -206,11 +233,20 @@ def envOrder : List EnvSource := [%s]
 def serialRequeuesSentinel : Bool := %s
 def cancelSignalName : String := %s
 def escalateSignalName : String := %s
+/-- killAfterTimeout sends the kill round also when it finds `queueComplete` already set (false: the round sits inside
+`if (!queueComplete)`, so a destructor that gets there first makes the thread return without signalling) -/
+def escalatesWhenComplete : Bool := %s
+/-- escalation deadline in ms (normal, with LLBUILD_TEST set) -/
+def escalationDeadlineMs : Nat := %d
+def escalationDeadlineTestMs : Nat := %d
+/-- the destructor waits until the detached waiters of lane-released processes are done (F54); not used by a theorem:
+object life time is outside the models, the harness observes it -/
+def destructorWaitsForBackgroundTasks : Bool := %s
 
 end LLBuild.Generated.LaneQueue
 """ % (atoms(wait_atoms), atoms(exit_atoms), b(prio_first), b(name_pops_greatest), add_notify, dtor_notify, cancel_notify,
-       ", ".join("." + o for o in order), b(serial_requeues), lean_str(cancel_sig), lean_str(escalate_sig))
-    return write_generated("LaneQueue", lean, [(rel, lane + add + dtor + can + ep + fifo + pq + less), (rel2, sp), (rel3, sim), (rel4, runb)])
+       ", ".join("." + o for o in order), b(serial_requeues), lean_str(cancel_sig), lean_str(escalate_sig), b(escalates_when_complete), esc_ms, esc_test_ms, b(dtor_waits_background))
+    return write_generated("LaneQueue", lean, [(rel, lane + add + dtor + can + kill + ep + fifo + pq + less), (rel2, sp), (rel3, sim), (rel4, runb)])
 
 
 if __name__ == "__main__":
